@@ -202,11 +202,12 @@ bool OPNMIDIplay::LoadMIDI_post()
     m_chipChannels.resize(synth.m_numChannels);
     resetMIDIDefaults();
 #ifdef OPNMIDI_MIDI2VGM
-    m_sequencerInterface->onloopStart = synth.m_loopStartHook;
-    m_sequencerInterface->onloopStart_userData = synth.m_loopStartHookData;
-    m_sequencerInterface->onloopEnd = synth.m_loopEndHook;
-    m_sequencerInterface->onloopEnd_userData = synth.m_loopEndHookData;
-    m_sequencer->setLoopHooksOnly(m_sequencerInterface->onloopStart != NULL);
+    // The VGM dumper brings its own loop hooks; otherwise the user's registered hooks stay in force
+    m_sequencerInterface->onloopStart = synth.m_loopStartHook ? synth.m_loopStartHook : hooks.onLoopStart;
+    m_sequencerInterface->onloopStart_userData = synth.m_loopStartHook ? synth.m_loopStartHookData : hooks.onLoopStart_userData;
+    m_sequencerInterface->onloopEnd = synth.m_loopEndHook ? synth.m_loopEndHook : hooks.onLoopEnd;
+    m_sequencerInterface->onloopEnd_userData = synth.m_loopEndHook ? synth.m_loopEndHookData : hooks.onLoopEnd_userData;
+    m_sequencer->setLoopHooksOnly(synth.m_loopStartHook != NULL);
 #endif
 
     return true;
